@@ -271,9 +271,9 @@ FoldAdd2(t, recs, cli) ==
   ELSE LET r == recs[1] IN
        FoldAdd2(AddTab(t, r[1], r[2], <<r[3], r[4], r[5], r[6]>>, cli), SubSeq(recs, 2, Len(recs)), cli)
 
-(* Tier 2 of the text front end: the character level algorithm of mpt_string_dest (strtol: blanks before   *)
-(* a number are passed over; a field is a number of 0..255 or empty; ':' separates; a blank ends the         *)
-(* destination) and the loop of mpt_output_bind_string around it.  TLC checks that for every text the        *)
+(* Tier 2 of the text front end: the character level algorithm of mpt_string_dest (blanks before the        *)
+(* destination are passed over; a field is a number of 0..255 or empty; ':' separates; a blank ends the      *)
+(* destination, also directly behind a separator) and the loop of mpt_output_bind_string around it.  TLC checks that for every text the        *)
 (* generator writes the algorithm sends a permitted result (DesignAnswers).                                   *)
 Ch(s, i) == IF i >= 1 /\ i <= Len(s) THEN SubSeq(s, i, i) ELSE ""
 IsBlank(c) == c = " " \/ c = "\t"
@@ -288,13 +288,14 @@ RECURSIVE SDLoop(_, _, _, _, _, _, _)
 SDLoop(s, p, start, i, max, ch, val) ==
   LET res(len) == [len |-> len, ch |-> ch, val |-> val] IN
   IF i >= max THEN res(p - start)
-  ELSE LET q == SkipBlanks(s, p) IN
-       IF IsDigit(Ch(s, q))
-       THEN LET r == ReadNum(s, q, 0)  v == r[1]  e == r[2]  n == Ch(s, e) IN
+  ELSE IF IsDigit(Ch(s, p))
+       THEN LET r == ReadNum(s, p, 0)  v == r[1]  e == r[2]  n == Ch(s, e) IN
             IF v > 255 THEN res(-(e - start))
             ELSE IF n # ":" THEN [len |-> e - start, ch |-> ch \cup {i}, val |-> [val EXCEPT ![i + 1] = v]]
+            \* a blank behind the separator ends the destination, as in the branch of a field left out
+            ELSE IF IsBlank(Ch(s, e + 1)) THEN [len |-> e + 1 - start, ch |-> ch \cup {i}, val |-> [val EXCEPT ![i + 1] = v]]
             ELSE SDLoop(s, e + 1, start, i + 1, max, ch \cup {i}, [val EXCEPT ![i + 1] = v])
-       ELSE LET c0 == Ch(s, p) IN          \* no number: strtol leaves the position where it was
+       ELSE LET c0 == Ch(s, p) IN
             IF c0 = "" THEN res(p - start)
             ELSE IF c0 = ":" THEN IF IsBlank(Ch(s, p + 1)) THEN res(p + 1 - start)
                                   ELSE SDLoop(s, p + 1, start, i + 1, max, ch, val)
